@@ -204,6 +204,19 @@ theorem C04_ctm_bbox (rot : Int) (hrot : rot = 0 ∨ rot = 90 ∨ rot = 180 ∨ 
     simp [page_ctm, begin_page_bbox, apply_matrix_rect, apply_matrix_pt, specDevice, turn, rot90cw, ratAbs] <;>
     grind
 
+/-- What the harness observes per page (`LTPage.bbox` and the matrix of one glyph) is what the
+specification demands. -/
+theorem C04_render (rot : Int) (hrot : rot = 0 ∨ rot = 90 ∨ rot = 180 ∨ rot = 270) (mb : Rect)
+    (hx : mb.1 ≤ mb.2.2.1) (hy : mb.2.1 ≤ mb.2.2.2) (p : Point) :
+    render rot mb p = specRender rot mb p := by
+  obtain ⟨x0, y0, x1, y1⟩ := mb
+  obtain ⟨x, y⟩ := p
+  simp only at hx hy
+  rcases hrot with rfl | rfl | rfl | rfl <;>
+    simp [render, specRender, page_ctm, begin_page_bbox, apply_matrix_rect, apply_matrix_pt, specDevice, turn,
+      rot90cw, ratAbs] <;>
+    grind
+
 /-- The four corners of a box, clockwise from the lower-left one. -/
 def cornersCW (r : Rect) : List Point :=
   [(r.1, r.2.1), (r.1, r.2.2.2), (r.2.2.1, r.2.2.2), (r.2.2.1, r.2.1)]
@@ -241,5 +254,36 @@ theorem C04_box_normalised (r : Rect) :
   obtain ⟨x0, y0, x1, y1⟩ := r
   simp only [normalize_rect]
   refine ⟨?_, ?_, ?_, ?_⟩ <;> grind
+
+/-- Every `PDFPage` that is constructed has Rotate in 0..359 and normalised MediaBox and CropBox
+(whatever the attribute values: defaults, wrong-length arrays, swapped corners). -/
+theorem C04_page_values (g : Store) (id : Nat) (res mb cb rot : Option Val) (pg : Page)
+    (h : mkPage g id res mb cb rot = .ok pg) :
+    0 ≤ pg.rotate ∧ pg.rotate < 360 ∧ Normalised pg.mediabox ∧ Normalised pg.cropbox := by
+  unfold mkPage at h
+  simp only at h
+  split at h
+  · cases h
+  · rename_i mbox hmb
+    have hm : Normalised mbox := by
+      cases mb with
+      | none => simp only [Except.ok.injEq] at hmb; subst hmb; exact us_letter_normalised
+      | some v => exact box_default g v US_LETTER mbox us_letter_normalised hmb
+    split at h
+    · cases h
+    · rename_i cbox hcb
+      have hc : Normalised cbox := by
+        cases cb with
+        | none => simp only [Except.ok.injEq] at hcb; subst hcb; exact hm
+        | some v => exact box_default g v mbox cbox hm hcb
+      simp only [Except.ok.injEq] at h
+      subst h
+      simp only
+      have hr : ∀ r : Int, 0 ≤ norm_rotate r ∧ norm_rotate r < 360 := by
+        intro r
+        simp only [norm_rotate, pyMod]
+        rw [Int.fmod_eq_emod_of_nonneg _ (by omega)]
+        omega
+      exact ⟨(hr _).1, (hr _).2, hm, hc⟩
 
 end PdfVerif.Props.C04
